@@ -5,6 +5,7 @@
 //!        vcheck --worker            (isolated child for hostile inputs)
 
 mod ccx;
+mod curve;
 mod driver;
 mod gen;
 mod model;
@@ -42,7 +43,7 @@ impl Ctx {
             seed: self.seed,
             threads: self.threads,
             cases,
-            max_shrink_iters: 300,
+            max_shrink_iters: 1500,
             stream_base,
         }
     }
